@@ -9,7 +9,7 @@ BASE_TRUSTED = [
     'no axiom declared by the development (audited on every run: Admitted/admit/Axiom/Parameter/Conjecture/'
     'Variable or Hypothesis outside a section/disabled checks are rejected)',
     'hand-written Gallina model of the Go code (coq/theories/Model) - tied to /repo by the correspondence run and, for the integer kernel '
-    '(floorMod, Timestamp.Add/Sub/Truncate, ArchiveInfo.MaxRetention/pointIndex/pointOffsetAt/interval/intervalForWrite, Header.Size, Header.ExpectedFileSize, ArchiveInfoList.validate, the exported integer constants), '
+    '(floorMod, Timestamp.Add/Sub/Truncate, ArchiveInfo.MaxRetention/pointIndex/pointOffsetAt/interval/intervalForWrite, Header.Size, Header.ExpectedFileSize, ArchiveInfoList.validate, ArchiveInfoList.fillOffset, the exported integer constants), '
     'by theorems against a translation of the current Go source (coq/theories/Tie, regenerated and re-proved on every run)',
     'harness/cmd/wtgo2coq (hand-written translator, Go standard library only: go/parser, go/types for types and constant values): its rendering of Go integer semantics '
     '(every arithmetic result and conversion wrapped to the width of its Go type, int = 64 bits, / and % = Z.quot and Z.rem, division by zero not modelled - the tie theorems exclude it) is trusted',
